@@ -33,6 +33,8 @@ def one_sequence(rng, out):
     alpha = float(rng.choice([-1, -1, 0.01, 0.1, 0.5, 1.0, float(rng.uniform(0.01, 1))]))
     eps = float(rng.choice([0.0, 0.0, 0.1, 0.5, 1.0]))
     init = float(rng.choice([0.0, 0.0, 1.0, -0.5, float(rng.normal())]))
+    if rng.random() < 0.25:
+        init = int(rng.integers(0, 3))  # an integer is a legitimate initial value
     seed = int(rng.integers(0, 2**31))
     steps = int(rng.integers(1, 201))
     agent = MABEpsilonGreedy(n, alpha, eps, initial_values=init, random_state=seed)
@@ -42,7 +44,7 @@ def one_sequence(rng, out):
     env._curr_best_loss = best0
     ref_best = best0
     mode = str(rng.choice(["random", "improving", "flat", "adversarial"]))
-    Q = [init] * n
+    Q = [float(init)] * n
     cnt = [0] * n
     desc = {"n_actions": n, "alpha": alpha, "eps": eps, "init": init, "seed": seed, "steps": steps, "mode": mode, "best0": best0}
     trace = []
